@@ -9,6 +9,8 @@ M   : spec/VoteCount.tla (design layer = processVoteMsg / judgeVoteCount / vote 
       equivocating certificate voter whose first vote came early still counts (class equivocator_future_vote, tolerated in
       M_cert_twoindices only; a certificate round cannot be reached on the engine fixture).
 G2  : `tlc -simulate` behaviours over three alphabets (one block / two blocks / two indices with invalid credentials).
+U   : growth stage UconNet (checks/uconnet.py): spec/UconNet.tla checked at design level (thorough), and spec/UconNet_Mon.tla on
+      the merged traces of the repository's six-node tests TestUcon (quick, thorough) and TestFork (thorough).
 T   : the driver `votecount` feeds every behaviour to the real ucon engine (real chain, real Server assembled without timers,
       real BLS/VRF/ECDSA-signed vote messages through Server.HandleMsg, real Server.commit -> PackVotes -> VerifySeal);
       VoteCount_Mon (the verdict) and VoteCount_Trace (conformance of tallies/latches/own votes/packed sets: drift) judge the trace.
@@ -17,6 +19,7 @@ import json
 import os
 import random
 import vlib
+from checks import uconnet
 
 CFG = """%(head)s
 CONSTANTS
@@ -110,7 +113,7 @@ def generate(ctx):
     # G: simulated behaviours over the fixture's weight table (2,3,4,5,6 ; T=20 ; quorum 13), three alphabets
     rnd = random.Random(ctx.seed)
     num = 500 if quick else 4000
-    cap = 130 if quick else 1000
+    cap = 100 if quick else 1000
     for name, kw, depth in (("G2_oneblock", dict(Blocks='{"A"}'), 12), ("G2_twoblocks", dict(), 15),
                             ("G2_twoindices", dict(MaxI=2, Creds=BOTH), 18)):
         g = ctx.tlc_must("VoteCount", cfg("G", WSel="a", MaxMsgs=depth, MaxOps=depth, **kw), name=name, timeout=1500,
@@ -212,6 +215,14 @@ def run(ctx):
             raise vlib.Undecided("clause %s never fired: generator bug" % c)
     if not ok and not ctx.violations and not ctx.known_hits:
         raise vlib.Undecided("design-level counterexample did not reproduce on the real code: specification drift")
+    # growth stage UconNet (see checks/uconnet.py): the composition at design level, and the C02/C03 clauses plus Agreement
+    # on the traces of the repository's own six-node tests (real concurrency), recorded by the verifTrace hooks in voter.go
+    if ctx.quick:
+        # TestUcon alone takes ~25 s; a slow machine must not turn the quick tier undecided: not strict here
+        uconnet.six_nodes(ctx, ["TestUcon"], timeout=200, strict=False)
+    else:
+        uconnet.design(ctx)
+        uconnet.six_nodes(ctx, ["TestUcon", "TestFork"], timeout=900, strict=True)
 
 
 def replay(ctx, path):
